@@ -100,7 +100,9 @@ def spec_to_oracle(spec: dict) -> str:
             toks = []
             for step in steps:
                 kind, _, arg = step.partition(":")
-                if arg and kind != "jump":
+                if kind == "jump" and arg in idx:            # a synthetic stage's task may jump to a top-level stage
+                    toks.append(f"jump:{idx[arg]}")
+                elif arg and kind != "jump":
                     toks.append(kind + ":" + ",".join(f"{kname(p.split('=')[0])}={p.split('=')[1]}" for p in arg.split(",")))
                 else:
                     toks.append(kind)
@@ -394,6 +396,26 @@ def syn_families() -> dict[str, dict]:
     f["syn_child_failc"] = {"stages": [S("A", before=[S("A.b0", tasks=[["failc"]])], after=[S("A.a0", tasks=[["failc"]])]), S("B", ["A"])]}
     f["syn_two_parents"] = {"stages": [S("A", before=[S("A.b0")]), S("B", before=[S("B.b0")], after=[S("B.a0", tasks=[["ok"], ["ok"]])]),
                                        S("C", ["A", "B"])]}
+    # jumps x synthetic stages: JumpToStageHandler._synthetic_reset_mutations re-arms the children of every re-armed stage
+    f["jsyn_cycle"] = {"stages": [S("A", tasks=[["ok:k1=1"]], before=[S("A.b0")], after=[S("A.a0")]), S("B", ["A"], tasks=[["jump:A", "ok"]]),
+                                  S("C", ["B"])]}
+    f["jsyn_self_before"] = {"stages": [S("A", tasks=[["jump:A", "ok:k1=1"]], before=[S("A.b0")]), S("B", ["A"])]}
+    f["jsyn_self_after"] = {"stages": [S("A", tasks=[["jump:A", "ok:k1=1"]], after=[S("A.a0")]), S("B", ["A"])]}
+    f["jsyn_forward_over"] = {"stages": [S("A", tasks=[["jump:D"]]), S("B", ["A"], before=[S("B.b0")], after=[S("B.a0")]), S("C", ["B"]),
+                                         S("D", ["C"])]}
+    f["jsyn_forward_to_parent"] = {"stages": [S("A", tasks=[["jump:C"]]), S("B", ["A"]), S("C", ["B"], before=[S("C.b0")], after=[S("C.a0")])]}
+    f["jsyn_source_kids"] = {"stages": [S("A"), S("B", ["A"], tasks=[["jump:A", "ok"]], before=[S("B.b0")], after=[S("B.a0")]), S("C", ["B"])]}
+    f["jsyn_mid_kids"] = {"stages": [S("A"), S("M", ["A"], before=[S("M.b0"), S("M.b1", chain=True)], after=[S("M.a0")]),
+                                     S("B", ["M"], tasks=[["jump:A", "ok"]]), S("C", ["B"])]}
+    # the jumping task belongs to a synthetic child of the target: the source is re-armed twice in one commit
+    f["jsyn_after_child_jumps"] = {"stages": [S("A", after=[S("A.a0", tasks=[["jump:A", "ok"]])]), S("B", ["A"])]}
+    f["jsyn_before_child_jumps"] = {"stages": [S("A", before=[S("A.b0", tasks=[["jump:A", "ok"]])]), S("B", ["A"])]}
+    # a side branch with parallel / chained children is re-armed while the loop A -> B -> A turns: how often its stages run
+    # depends on how far the branch got when the jump re-armed it (schedule-dependent by design)
+    f["jsyn_side"] = {"order_dependent": True,
+                      "stages": [S("A"), S("B", ["A"], tasks=[["jump:A", "ok"]]),
+                                 S("P", ["A"], before=[S("P.b0", tasks=[["ok"], ["ok"]]), S("P.b1")], after=[S("P.a0"), S("P.a1", chain=True)]),
+                                 S("K", ["P"])]}
     f["syn_multitask_child"] = {"stages": [S("A", tasks=[["ok"], ["ok"]], before=[S("A.b0", tasks=[["ok:k1=1"], ["run", "ok"]])],
                                            after=[S("A.a0", tasks=[["trans", "ok"]])])]}
     return f
@@ -647,7 +669,8 @@ REQUIRED_INVARIANTS = {"running_task_in_running_stage", "mutex", "choice", "ids"
 
 CRASH_QUICK = ["chain3", "diamond", "multitask", "fail_terminal", "continue_on_failure", "poll", "transient2",
                "first_of", "quorum", "self_loop", "choice3", "mutex_pair", "or_split",
-               "syn_before_after", "syn_before_chain", "syn_two_after", "syn_on_failure", "syn_after_one_fails"]
+               "syn_before_after", "syn_before_chain", "syn_two_after", "syn_on_failure", "syn_after_one_fails",
+               "jsyn_cycle", "jsyn_after_child_jumps"]
 
 
 def spec_key(spec) -> str:
